@@ -150,6 +150,33 @@ ENUM_GROUPS = {
                'all valid object class names of length <= 4 over {a b / $ x}'),
             dict(name='canary_must_fail', props=[], canary=True, text='must fail', bound=''),
         ]),
+    'maps': dict(
+        crate='quill', file='quill/src/lib.rs', harness_file='maps.rs',
+        functions=['quill::tiny_v2::read / write_string (whole mapping sets)', 'Mappings::merge', 'MappingsDiff::diff', 'MappingsDiff::apply_to', 'tiny_v2_diff::read',
+                   'Mappings::reorder', 'Mappings::extend_inner_class_names', 'Mappings::contract_inner_class_names', 'Mappings::remapper_a', 'Mappings::remapper_b',
+                   'Mappings::remove_dummy'],
+        trusted=['map-level harness (kx/enum/maps.rs): own model of a mapping set, own Tiny v2 renderer and parser, model-level oracles written from the property statements; '
+                 'explicit exclusions (counted at run time, see DESIGN 10.5): parameter source names in diffs, super-class search through classes the set does not name, '
+                 'parameters without a name in the new first namespace, own names that already contain `$`'],
+        tests=[
+            _t('tiny_roundtrip', ['C03'], 'Every mapping set of the bound, rendered as Tiny v2 text in two different line orders, is read by tiny_v2::read into exactly the rendered entries (none lost, merged or re-parented), both trees are written to the same bytes, these bytes are the key-sorted rendering of the content, an independent parser reads them back to the same set, and write(read(write(M))) == write(M).',
+               '2 namespaces: all 11^3=1331 sets over class keys {A, p/B, A$I}, each absent or one of 10 shapes (name present/absent; comment none/empty/one-line/multi-line; unicode names; 0..3 fields; 0..3 methods incl. same name/different descriptor; 0..3 parameters with/without source name); 3 namespaces: all 13^2=169 sets over {A, p/B} with 12 shapes (the 4 absent-name patterns on class, field, method+parameter); 4 namespaces: 17 sets over {A} (the 8 absent-name patterns, bare and with field+method+parameter); total 1517 sets, each rendered sorted and reversed (comments after members, methods before fields).', timeout=300),
+            _t('merge_is_faithful_join', ['C09'], "Mappings::merge(A,B) is Ok exactly when the two sides do not conflict (different comments on one entry, different parameter source names, different first namespace) and then equals the model-level join: key union at every level, names [first, A's, B's] with absent where a side lacks the entry, comment of whichever side has one; both projections contain the inputs.",
+               'all pairs (A over (s,a), B over (s,b)): wide universe 4^3=64 sets over keys {A, p/B, A$I} x shapes {named, unnamed+comment, named+commented field}; deep universe 241 sets with key A: class name present/absent x comment none/c/d x field (LA;,f) absent/named/unnamed+c/named+d x method ((Lp/B;)V,m) in 10 variants (absent, named, commented, parameter 0 with source name x / y / none / comment c / comment d, parameter 1, unnamed method); 64^2+241^2=62177 pairs, plus 241 pairs with different first-namespace names; 62418 cases.', timeout=300),
+            _t('diff_then_apply', ['C04'], 'MappingsDiff::diff(A,B) is Ok exactly when every entry of A and B has a name in the second namespace, and then apply_to(A) yields exactly B, also when the diff travels through .tinydiff text (written by the harness, read by tiny_v2_diff::read).',
+               "all ordered pairs over (s,a): wide universe 5^3=125 sets over keys {A, p/B, A$I} x shapes {named, renamed, unnamed, named+comment}; deep universe 117 sets with key A: class name X/X' x comment none/c/d x field (LA;,f) absent/named/renamed+c x method ((Lp/B;)V,m) absent/named/renamed+c/parameter 0 named/renamed+comment/with source name, plus 8 sets with an unnamed class/field/method/parameter; 125^2+117^2=29314 pairs. Excluded by the property: 13337 pairs with an unnamed entry (must be refused, checked). Excluded as deviation: 2286 pairs where B has a parameter source name that A lacks or spells differently.", timeout=300),
+            _t('apply_is_exact_or_refused', ['C04'], 'Applying diff(A,B) to any third set C gives exactly the model-level result (additions appear, removals disappear with their subtree, edits replace, other entries/namespaces/comments identical) or is refused; refused iff a stated old name/comment does not match, an addition collides, or an edit/removal addresses a missing entry.',
+               "A,B: the 27 fully named sets of the 39-set chain universe (key A; one level at a time - class, field (LA;,f), method ((Lp/B;)V,m), parameter 0 - ranges over absent / {named X, named X', unnamed} x {no comment, c, d}; plus two multi-level sets) = 729 diffs; C: the 39 chain sets over (s,a), the same 39 with an unrelated class p/B (comment, field, method, parameter) added, and the 39 sets over three namespaces (s,c,a) with the diff applied in the third namespace; 729*117=85293 triples.", timeout=300),
+            _t('reorder_is_a_permutation', ['C08'], 'Mappings::reorder fails iff a class, field or method lacks a name in the new first namespace; otherwise namespaces and every name row are permuted, keys and descriptors are re-expressed in the new first namespace, comments and parameter indices are untouched, reordering back gives the original and the identity changes nothing.',
+               '2 namespaces (s,a), both permutations, all 9^3=729 sets over keys {A, p/B, A$I} x 8 shapes (named/unnamed/commented class; fields LA; and [Lp/B; named or not; method (LA;[[Lp/B;I)LA$I; with parameters with/without source name, named or not); 3 namespaces (s,a,b), all 6 permutations, all 12*12*5=720 sets over {A, p/B} x 11 shapes (4 absent-name patterns on the class, 3 on field LA;, 4 on method (Lp/B;)LA; with parameter) and A$I x 4 patterns; 729*2+720*6=5778 cases. Excluded: parameters without a name in the new first namespace are not required to make it fail.', timeout=300),
+            _t('extend_contract_inner_names', ['C11'], 'extend_inner_class_names rewrites, in the chosen namespace only, the name of every nested class to extended(outer)+$+own name recursively, fails iff an outer class (any depth) of a named class is missing or unnamed there, leaves everything else untouched; contract_inner_class_names keeps the part after the last $ of the last segment; contract(extend(M)) == M.',
+               '2 namespaces, namespace a: all 4^4*5*3=3840 sets over keys A, A$I$K, p/B, p/B$M (absent/named/unnamed/named with comment+field+method+parameter), A$I (those plus the nested-looking name Q$J) and a$b/C ($ in the package; absent/named/named x$y/Z); 3 namespaces (s,a,b), namespace a and namespace b: all 4^4=256 sets over A, A$I, A$I$K, p/B$M x {both named, a absent, b absent}; 4352 cases. Extension oracle domain: no name in the chosen namespace is itself of the form Outer$Inner (768 cases excluded, contraction still checked on them).', timeout=300),
+            _t('remapper_consistency', ['C06'], 'remapper_a maps every class name to its counterpart or leaves it unchanged and rewrites field/array/method/return descriptors and array class names exactly at the class names; remapper_b answers a field/method with the declaration of the owner, else of the first declaring super type in depth-first declaration order, else the unchanged name with remapped descriptor, for every (from,to) including from != first; X->Y->X is the identity on classes, descriptors and declared members named in both namespaces.',
+               'all 5^4=625 sets over (s,a,b) with keys A,B,C,D, each absent / named bare / named with field (LA;,f) and method ((LA;)[LB;,m) / class unnamed in a / members unnamed in a (member names carry the declaring class) x 6 ordered namespace pairs x 4 inheritance relations (none, chain D<C<B<A, diamond D<[B,C]<A, D<[C,B] with C<A) = 15000 remappers; per remapper 32 member queries (owners A..D x {f spellings, m spellings, undeclared zz}), 480000 in total; per (set,from,to) 18 class names (every spelling of A..D in any column, Z, java/lang/Object) x 5 descriptor forms. Excluded as deviation: 229474 queries whose search passes through a class not named in both from and to (weaker check applied).', timeout=300),
+            _t('remove_dummy_rules', ['C10'], 'Mappings::remove_dummy removes exactly the entries named by the documented rules (p_ parameter without comment; f_ field without comment; m_/<init>/<clinit> method without comment and without remaining parameter; C_ or net/minecraft/unmapped/C_ class without comment and without remaining member), judged only in the given namespace, leaves everything else identical and is idempotent.',
+               '2 namespaces, namespace a: 841 sets with key A: class name C_1 / net/minecraft/unmapped/C_2 / p/C_3 / Real / absent x comment none/c x field absent/f_1/g/f_1+comment/xf_1/unnamed x 14 method variants (absent, m_1, <init>, <clinit>, run, xm_1, m_1+comment, m_1 with parameter p_1 / arg / p_1+comment / p_1 and xp_1, run with p_1, <init> with unnamed parameter, unnamed method with p_1), alone and next to a second class B named C_9 with a field; 3 namespaces (s,a,b): the same 841 sets with placeholders in a and ordinary names in b, filtered by a and by b; 3364 cases. Mapping side only (the diff-side counterpart insert_dummy_and_contract_inner_names is not covered).', timeout=300),
+            dict(name='canary_must_fail', props=[], canary=True, text='must fail', bound=''),
+        ]),
     'mpo': dict(
         crate='dukebox', file='dukebox/src/merge.rs', harness_file='mpo.rs',
         functions=['dukebox/src/merge.rs::merge_preserve_order'],
